@@ -146,6 +146,74 @@ pub fn check(ctx: &mut Ctx) {
         }
     }
 
+    // ---- a row operator after an aggregation that fails on SOME rows of the table (a None
+    // aggregate in arithmetic, a missing column): those rows are skipped, every other row comes out
+    // exactly as if it had been processed alone
+    let npost = ctx.budget(240, 6000);
+    for _ in 0..npost {
+        let mut r = ctx.rng.fork();
+        let nrows = 2 + r.below(16);
+        let mut input = vec![];
+        for _ in 0..nrows {
+            let k = r.pick(&["a", "b", "c", "d", "e"]);
+            let x = match r.below(4) {
+                0 => "\"word\"".to_string(),
+                1 => "null".to_string(),
+                _ => format!("{}", r.range(-30, 90)),
+            };
+            let y = if r.chance(70) { format!(",\"y\":{}", r.range(0, 9)) } else { String::new() };
+            input.extend(format!("{{\"k\":\"{}\",\"x\":{}{}}}\n", k, x, y).into_bytes());
+        }
+        let agg = *r.pick(&["max(x) as w, count as c by k", "min(x) as w, sum(y) as c by k", "max(x) as w, max(y) as c by k", "min(y) as w, count as c by k"]);
+        let op = *r.pick(&["w * 2 as z", "where w / 10 >= 0", "w + c as z", "where c - w < 1000", "if(w > 5, w, c) as z", "w - 1 as z | z * c as zz"]);
+        let q1 = format!("* | json | {}", agg);
+        let q2 = format!("{} | {}", q1, op);
+        let key = ckey(&q2, &input);
+        let info = serde_json::json!({"query": q2, "input": String::from_utf8_lossy(&input)});
+        let t = imp::run(&q1, &input, "json", 10);
+        let full = imp::run(&q2, &input, "json", 10);
+        if !t.compiled || !full.compiled || t.panicked.is_some() || full.panicked.is_some() || full.hung {
+            ctx.case("post-agg-row-error", &key, "viol", serde_json::json!({"class": "", "what": "query did not run to completion", "panic": full.panicked, "case": info}));
+            continue;
+        }
+        let rows = match crate::canon::parse(String::from_utf8_lossy(&t.stdout).trim_end()) {
+            Ok(crate::canon::J::Arr(rows)) => rows,
+            _ => continue,
+        };
+        let mut expect: Vec<crate::canon::J> = vec![];
+        let mut failing = 0;
+        for row in &rows {
+            let line = format!("{}\n", super::c03::to_json(row));
+            let one = imp::run(&format!("* | json | {}", op), line.as_bytes(), "json", 10);
+            match crate::canon::normalized_lines(&one.stdout) {
+                Some(ls) if !ls.is_empty() => expect.extend(ls),
+                _ => failing += 1,
+            }
+        }
+        let got = match crate::canon::parse(String::from_utf8_lossy(&full.stdout).trim_end()) {
+            Ok(crate::canon::J::Arr(rows)) => rows.iter().map(crate::canon::normalize).collect::<Vec<_>>(),
+            _ => vec![],
+        };
+        let want: Vec<crate::canon::J> = expect.iter().map(crate::canon::normalize).collect();
+        let mut a: Vec<String> = got.iter().map(|j| format!("{:?}", j)).collect();
+        let mut b: Vec<String> = want.iter().map(|j| format!("{:?}", j)).collect();
+        a.sort();
+        b.sort();
+        if a != b {
+            ctx.case("post-agg-row-error", &key, "viol", serde_json::json!({"class": "", "what": format!("rows of `aggregate | op` are not the rows of the aggregate each passed through op on its own ({} of {} table rows fail in op)", failing, rows.len()),
+                "table": String::from_utf8_lossy(&t.stdout), "got": String::from_utf8_lossy(&full.stdout), "expected_rows": b, "case": info}));
+            continue;
+        }
+        ctx.count(if failing > 0 && failing < rows.len() { "post-agg:some-rows-fail" } else { "post-agg:none-or-all-fail" });
+        ctx.case("post-agg-row-error", &key, "pass", info.clone());
+        let c = run_both(ctx, &q2, &input);
+        match compare(&c, true) {
+            F::Agree => ctx.case("model", &key, "pass", info),
+            F::Skip(w) => ctx.case("model", "", "skip", serde_json::json!({"why": w.split(':').next().unwrap_or("").chars().take(60).collect::<String>()})),
+            F::Disagree(d) => ctx.case("model", &key, "fdis", serde_json::json!({"what": d.chars().take(1200).collect::<String>(), "case": info})),
+        }
+    }
+
     // ---- subprocess sample: exit status 0, no panic report, `error:` lines only
     if let Ok(bin) = ensure_binary() {
         let k = ctx.budget(48, 800);
